@@ -109,6 +109,13 @@ func LoadWorld(root string) (*World, error) {
 		}
 	}
 	sort.Slice(w.Funcs, func(i, j int) bool { return w.FuncKey(w.Funcs[i]) < w.FuncKey(w.Funcs[j]) })
+	errCtorWorld = w
+	errCtorEffects = func() *Effects {
+		if effCache == nil {
+			effCache = NewEffects(w)
+		}
+		return effCache
+	}
 	return w, nil
 }
 
